@@ -312,6 +312,7 @@ type Gen struct {
 	R     *rand.Rand
 	Small bool // keep states small (all-prefix sweeps are quadratic in the image size)
 	Tweak int // 0 none; k>0: change the k-th constructor parameter (used to build near-twins)
+	Wide  bool // Count-Min: rarely draw rows wider than 4096 cells (Redis script chunking / unpack limits)
 }
 
 func (g *Gen) Intn(n int) int { return g.R.Intn(n) }
@@ -370,4 +371,13 @@ func sortedKeys(m map[string]int) []string {
 	}
 	sort.Strings(ks)
 	return ks
+}
+
+// wide wraps a generator so that Count-Min dimensions rarely include rows wider than 4096 cells.
+func wide(gen func(g *Gen, tier string) *Case) func(g *Gen, tier string) *Case {
+	return func(g *Gen, tier string) *Case {
+		g.Wide = true
+		defer func() { g.Wide = false }()
+		return gen(g, tier)
+	}
 }
